@@ -133,7 +133,7 @@ mut("registration_request_length_check_removed", "src/messages.rs",
     """        let checked_slice = check_slice_size(input, elem_len, "registration_request_bytes")?;
 """, """        let checked_slice = check_slice_size_atleast(input, elem_len, "registration_request_bytes")?;
 """,
-    breaks=["C10"], keeps=["C01", "C03"], note="re-introduces D1 through the at-least check (the canonical-element helper must catch it)")
+    breaks=[], keeps=["C01", "C03", "C10"], note="weakens the length pre-check to at-least; harmless since fix D2b: the canonical-element helper compares the re-encoding with the whole input, so trailing bytes are still refused")
 
 mut("x25519_small_order_filter_removed", "src/key_exchange/group/curve25519.rs",
     """            .filter(|pk| pk.mul_clamped([0; 32]) != MontgomeryPoint::identity())
@@ -156,13 +156,9 @@ mut("nist_hash_to_scalar_zero_accepted", "src/key_exchange/group/elliptic_curve.
     """                if bool::from(scalar.is_zero()) {""", """                if bool::from(scalar.is_zero()) && false {""",
     breaks=["C19", "C11"], keeps=["C10"], note="a zero hash-to-scalar output would be returned as a private key (probability 2^-256: no test or generator can reach it)")
 
-mut("nist_dh_uses_generator", "src/key_exchange/group/elliptic_curve.rs",
-    """        Self::serialize_pk(pk * sk)""", """        Self::serialize_pk(ProjectivePoint::<Self>::generator() * sk + (pk - pk))""",
-    breaks=[], keeps=[], note="(does not type-check in the shim: recorded only to see the degradation)")
-
 mut("serde_private_key_skips_group_decoder", "src/keypair.rs",
     """        KG::serialize_sk(self.0).serialize(serializer)""", """        KG::serialize_sk(self.0).as_slice().serialize(serializer)""",
-    breaks=[], keeps=["C11"], note="serializes a slice instead of a fixed array (different serde framing); needs the serde shim to know slices - degradation only")
+    breaks=["C13"], keeps=["C11"], note="serializes a slice instead of a fixed array: bincode then writes a length prefix that the array-reading Deserialize impl does not expect, so a saved key no longer reloads")
 
 mut("argon2_salt_nonzero", "src/ksf.rs",
     """&[0; argon2::RECOMMENDED_SALT_LEN]""", """&[1; argon2::RECOMMENDED_SALT_LEN]""",
